@@ -22,9 +22,12 @@ def main():
     rc, out = sh(f"git -C /repo worktree add -q --detach {wt} HEAD")
     assert rc == 0, out
     names = sorted(os.path.basename(os.path.dirname(f)) for f in glob.glob(f"/verif/seeded/{prefix}*/meta.json"))
+    only = set(filter(None, os.environ.get("RECHECK_PROPS", "").split(",")))  # e.g. after an engine change: only its properties
+    if only:
+        names = [n for n in names if json.load(open(f"/verif/seeded/{n}/meta.json"))["property"] in only]
     names = [n for i, n in enumerate(names) if i % of == stream]
     res = {}
-    outp = f"/verif/sensitivity/seeded_recheck.{stream}{'' if prefix == 'agent' else '.' + prefix}.json"
+    outp = f"/verif/sensitivity/seeded_recheck.{os.environ.get('RECHECK_TAG', '')}{stream}{'' if prefix == 'agent' else '.' + prefix}.json"
     try:
         for n in names:
             m = json.load(open(f"/verif/seeded/{n}/meta.json"))
